@@ -203,7 +203,7 @@ def _ordinal(name):
     return int(m.group(1)) if m else None
 
 
-def clause_label(clines, ln, loop=False, ordinal=None):
+def clause_label(clines, ln, loop=False, ordinal=None, count=None):
     """Label of the contract clause that contains line ln of the unit's C file:
     the /* comment */ that opens the clause if there is one, else its text.
     Loop obligations are reported at the loop head; their clauses follow it and
@@ -212,14 +212,21 @@ def clause_label(clines, ln, loop=False, ordinal=None):
     k = ln - 1
     if loop:
         found = []
-        for i in range(k, min(len(clines), k + 14)):
+        # cbmc reports while/for loops at their head and do-loops at the '{' after the contract: go back to the head
+        h = k
+        for i in range(k, max(-1, k - 24), -1):
+            if re.match(r'^\s*(do\b|while\s*\(|for\s*\()', clines[i]):
+                h = i
+                break
+        k = h
+        for i in range(k, min(len(clines), k + 24)):
             if i > k and re.search(r'^\s*\{\s*$', clines[i]):
                 break
             if re.search(r'__CPROVER_loop_invariant\s*\(', clines[i]):
                 m = re.search(r'__CPROVER_loop_invariant\s*\(\s*/\*(.*?)\*/', clines[i])
                 found.append(m.group(1).strip() if m else re.sub(r'\s+', ' ', clines[i].strip())[:200])
         if found:
-            if ordinal is not None and 1 <= ordinal <= len(found):
+            if ordinal is not None and count == len(found) and 1 <= ordinal <= len(found):
                 return found[ordinal - 1]
             return found[0] if len(found) == 1 else 'one of the loop invariants: ' + ' | '.join(found)
     lo = max(0, k - 8)
@@ -345,11 +352,20 @@ def run_job(unit, job, cpath, workdir, tier):
     if results is None:
         r.reason = 'no result list from cbmc (rc=%s): %s' % (rc, alltext[-1500:])
         return r
-    loop_lines = {}
+    # loop obligations are numbered per function across its loops; the k-th smallest number among the step (base)
+    # obligations reported at one loop head belongs to that loop's k-th invariant clause when the counts agree
+    groups = {}
     for it in results:
         loc = it.get('sourceLocation', {}) or {}
-        if '.loop_invariant_' in it.get('property', ''):
-            loop_lines.setdefault(it['property'].split('.loop_invariant_')[0], set()).add(loc.get('line', ''))
+        m = re.match(r'(.*)\.(loop_invariant_step|loop_invariant_base)\.(\d+)$', it.get('property', ''))
+        if m:
+            groups.setdefault((m.group(1), m.group(2), loc.get('line', '')), []).append(int(m.group(3)))
+    def _rank(name, line):
+        m = re.match(r'(.*)\.(loop_invariant_step|loop_invariant_base)\.(\d+)$', name)
+        if not m:
+            return None, None
+        g = sorted(groups.get((m.group(1), m.group(2), line), []))
+        return (g.index(int(m.group(3))) + 1, len(g)) if int(m.group(3)) in g else (None, None)
     for it in results:
         loc = it.get('sourceLocation', {}) or {}
         o = {'name': it.get('property', ''), 'desc': it.get('description', ''),
@@ -360,7 +376,8 @@ def run_job(unit, job, cpath, workdir, tier):
                                                  'loop_decreases', 'loop_step_unwinding'):
             try:
                 ln = int(o['line'])
-                o['desc'] = o['desc'] + ' :: ' + clause_label(clines, ln, loop=o['cls'].startswith('loop_'), ordinal=_ordinal(o['name']) if len(loop_lines.get(o['name'].split('.loop_')[0], ())) == 1 else None)
+                rk, cnt = _rank(o['name'], o['line'])
+                o['desc'] = o['desc'] + ' :: ' + clause_label(clines, ln, loop=o['cls'].startswith('loop_'), ordinal=rk, count=cnt)
             except Exception:
                 pass
         r.obligations.append(o)
